@@ -199,8 +199,12 @@ def run(ctx):
     V = None
     if isinstance(offarg, ast.Name):
         V = offarg.id
-        defs = [x for x in walk_body_shallow(scr.body) if isinstance(x, ast.Assign) and any(unparse(t) == V for t in x.targets)]
-        snap_ok = len(defs) == 1 and norm(defs[0].value) == "self._last_processed_offset"
+        # every value the offset can have when the request is built is a read of _last_processed_offset made in this very
+        # call (not something handed in by the caller - a retry must commit what is processed *now*)
+        cscr = ctx.cfg(scr)
+        og_ = value_origins(cscr, cscr.containing(ocr[0])[0].id, offarg, params=scr.params)
+        reads_ = [n_ for n_, e_ in (og_ or []) if norm(e_) == "self._last_processed_offset"]
+        snap_ok = bool(og_) and len(reads_) == len(og_) and len(set(reads_)) == 1
     r.check(snap_ok, "%s#snapshot" % scr.qname, "commit request offset is not a single snapshot of _last_processed_offset",
             where(scr, ocr[0]), "value sent and value recorded can differ")
     sends = calls_in(scr, "send_offset_commit_request")
